@@ -22,6 +22,7 @@ META = {
     "assumptions": ["`?` desugaring: Try::branch / FromResidual::from_residual on Result map Err(e) to Err(From::from(e))"],
     "not_decided": ["behaviour of the operating system / File"],
 }
+TECHNIQUE = 'read-loop protocol rule over the CFG cycles (exact length, same buffer, exits, Interrupted retry), abstract evaluation of the error exit value, wrapper shape rules'
 READ = "std::io::Read::read"
 
 
